@@ -84,4 +84,30 @@ def firstMatch (table : List (Bytes × Re)) (s : Bytes) : Option Bytes :=
   | [] => none
   | (rel, re) :: rest => if re.matches s then some rel else firstMatch rest s
 
+/-- A text the expression matches (if it can match at all): literals as they
+    are, the low end of a class's first range, `x` for any character, nothing
+    for anchors and stars, the first alternative that has a sample.  (The
+    extractor derives the same text from the parsed Go expression:
+    Gen/JoinReleases `regexSamples`.) -/
+def Re.sample : Re → Option Bytes
+  | .fail => none
+  | .eps => some []
+  | .lit c _ => some [c]
+  | .cls [] => none
+  | .cls ((lo, _) :: _) => some [lo]
+  | .anyNotNL => some [120]
+  | .any => some [120]
+  | .beginText => some []
+  | .endText => some []
+  | .cat a b => match a.sample, b.sample with
+    | some x, some y => some (x ++ y)
+    | _, _ => none
+  | .alt a b => match a.sample with
+    | some x => some x
+    | none => b.sample
+  | .star _ => some []
+
+def sampleTable (t : List (Bytes × Re)) : List (Bytes × Bytes) :=
+  t.filterMap fun p => (p.2.sample).map fun s => (p.1, s)
+
 end ClairModel.Join
